@@ -33,6 +33,22 @@ type c16Op struct {
 type c16Case struct {
 	Ops    []c16Op     `json:"ops"`
 	Inputs []model.Val `json:"inputs"`
+	// Spell: how this history spells its top-level schema keys (the destination's fields carry no tags, so "a" and "A"
+	// both name field A; the key as spelled is what is looked up in the input and what issue paths show):
+	// "" = lower case, "go" = as the Go field (A), "mixed" = every other key as the Go field
+	Spell string `json:"spell,omitempty"`
+}
+
+func (c c16Case) spell(k string) string {
+	switch c.Spell {
+	case "go":
+		return strings.ToUpper(k)
+	case "mixed":
+		if k[0]%2 == 0 {
+			return strings.ToUpper(k)
+		}
+	}
+	return k
 }
 
 type c16Dest struct {
@@ -140,10 +156,10 @@ func (l *c16Log) post(id int) z.PostTransform {
 }
 
 // handBuilt writes the schema out from its model.
-func handBuilt(m *c16Model, l *c16Log) *z.StructSchema {
+func handBuilt(m *c16Model, l *c16Log, sp func(string) string) *z.StructSchema {
 	sm := z.Schema{}
 	for k, def := range m.fields {
-		sm[k] = c16Fields[def].make()
+		sm[sp(k)] = c16Fields[def].make()
 	}
 	s := z.Struct(sm)
 	for _, id := range m.tests {
@@ -196,6 +212,7 @@ func propC16(c c16Case) (v hh.Verdict) {
 	nextID := 1
 	derivedFrom := map[int]int{} // schema index -> base index it was derived from
 	laterAdd, merge3 := false, false
+	sp := c.spell
 	defer func() {
 		if p := recover(); p != nil {
 			v = hh.Fail("panic during the history: %v", p)
@@ -210,7 +227,7 @@ func propC16(c c16Case) (v hh.Verdict) {
 				m.set(c16Fields[def].key, def)
 			}
 			for k, def := range m.fields {
-				sm[k] = c16Fields[def].make()
+				sm[sp(k)] = c16Fields[def].make()
 			}
 			if len(op.Fields) == 0 {
 				sm = nil // z.Struct(nil): a hooks-only base
@@ -237,29 +254,29 @@ func propC16(c c16Case) (v hh.Verdict) {
 			case op.AsMap && len(op.Keys) > 1 && len(op.False) > 0 && op.False[0] == "+mixed":
 				// first key as a string, the rest in a map that ALSO lists the first key (and others) as false:
 				// false entries are documented to be ignored, they do not cancel a selection made elsewhere
-				args = append(args, op.Keys[0])
-				mm := map[string]bool{op.Keys[0]: false}
+				args = append(args, sp(op.Keys[0]))
+				mm := map[string]bool{sp(op.Keys[0]): false}
 				for _, k := range op.Keys[1:] {
-					mm[k] = true
+					mm[sp(k)] = true
 				}
 				for _, k := range op.False[1:] {
-					mm[k] = false
+					mm[sp(k)] = false
 				}
 				args = append(args, mm)
 			case op.AsMap:
 				mm := map[string]bool{}
 				for _, k := range op.Keys {
-					mm[k] = true
+					mm[sp(k)] = true
 				}
 				for _, k := range op.False {
 					if k != "+mixed" {
-						mm[k] = false
+						mm[sp(k)] = false
 					}
 				}
 				args = []any{mm}
 			default:
 				for _, k := range op.Keys {
-					args = append(args, k)
+					args = append(args, sp(k))
 				}
 			}
 			nm := sm.clone()
@@ -293,7 +310,7 @@ func propC16(c c16Case) (v hh.Verdict) {
 					continue
 				}
 				seen[k] = true
-				ext[k] = c16Fields[def].make()
+				ext[sp(k)] = c16Fields[def].make()
 				nm.set(k, def)
 			}
 			derivedFrom[len(live)] = op.Src
@@ -347,9 +364,16 @@ func propC16(c c16Case) (v hh.Verdict) {
 		}
 		// invariant: every live schema behaves like its hand-written equivalent
 		for i, s := range live {
-			hb := handBuilt(models[i], l)
+			hb := handBuilt(models[i], l, sp)
 			for _, in := range c.Inputs {
 				data := in.Go()
+				if m, ok := data.(map[string]any); ok && c.Spell != "" {
+					rk := make(map[string]any, len(m))
+					for k, x := range m {
+						rk[sp(k)] = x
+					}
+					data = rk
+				}
 				gotR, gotE := c16Observe(s, l, data)
 				wantR, wantE := c16Observe(hb, l, data)
 				if gotR != wantR || gotE != wantE {
@@ -359,7 +383,7 @@ func propC16(c c16Case) (v hh.Verdict) {
 			}
 		}
 	}
-	v = hh.Verdict{Classes: []string{fmt.Sprintf("schemas:%d", min(len(live), 6))}}
+	v = hh.Verdict{Classes: []string{fmt.Sprintf("schemas:%d", min(len(live), 6)), "keys-spelled:" + c.Spell}}
 	if laterAdd {
 		v.Classes = append(v.Classes, "sibling-extended-later")
 	}
@@ -541,6 +565,7 @@ func genC16(rt *rapid.T, maxOps int) c16Case {
 		}
 		c.Inputs = append(c.Inputs, in)
 	}
+	c.Spell = rapid.SampledFrom([]string{"", "", "go", "mixed"}).Draw(rt, "spell")
 	return c
 }
 
